@@ -479,6 +479,15 @@ pub fn run(tier: Tier) -> i32 {
     ];
     if tier == Tier::Thorough {
         epochs.extend([vec![1, 2, 3, 4], vec![1, 1, 1, 1, 1, 1], vec![5, 5, 5, 5, 40], vec![3, 3, 3, 3, 3, 3, 2]]);
+        // every stake vector over {1, 2, 3} for 2..=4 validators (all threshold constellations of small sets)
+        for n in 2..=4usize {
+            for code in 0..3usize.pow(n as u32) {
+                let v: Vec<u64> = (0..n).map(|i| 1 + (code / 3usize.pow(i as u32) % 3) as u64).collect();
+                if !epochs.contains(&v) {
+                    epochs.push(v);
+                }
+            }
+        }
     }
     let cx = Ctx {
         report: &report,
